@@ -829,31 +829,23 @@ func c11RuleTaint(p *Program, r *Reporter, g *c11Flow) {
 
 	// (a) sinks
 	nSinks, nArgs := 0, 0
-	for _, c := range g.extCalls {
+	// checkSink examines one sink call; actual[i] is the value to judge for argument i
+	// (the sink's own argument, or the caller's argument when the sink sits in a
+	// forwarding helper), store the wrapped store it is applied to.
+	checkSink := func(c CallSite, where *ssa.Function, store, via string, actual []ssa.Value) {
 		args := c.Args()
-		store := ""
-		for _, a := range args {
-			if s := g.wrappedStore(g.node(a)); s != "" {
-				store = s
-			}
-		}
-		if store == "" {
-			continue
-		}
 		nSinks++
-		base := FuncKey(c.Fn) + "#" + store + ":" + c11CalleeName(c)
+		base := FuncKey(where) + "#" + store + ":" + c11CalleeName(c) + via
 		site := p.Pos(c.Pos())
-		// does this sink upload content?
-		var contentArg ssa.Value
-		for _, a := range args {
+		contentIdx := -1
+		for i, a := range args {
 			if g.wrappedStore(g.node(a)) == "" && isContent(a.Type()) {
-				contentArg = a
+				contentIdx = i
 			}
 		}
 		checked := 0
 		for i, a := range args {
-			n := g.node(a)
-			if g.wrappedStore(n) != "" {
+			if g.wrappedStore(g.node(a)) != "" {
 				continue
 			}
 			if _, isFunc := a.Type().Underlying().(*types.Signature); isFunc {
@@ -862,6 +854,7 @@ func c11RuleTaint(p *Program, r *Reporter, g *c11Flow) {
 			if c11IsContext(a.Type()) {
 				continue
 			}
+			n := g.node(actual[i])
 			checked++
 			nArgs++
 			construct := base + "#" + c11ParamName(c, i)
@@ -878,7 +871,7 @@ func c11RuleTaint(p *Program, r *Reporter, g *c11Flow) {
 				continue
 			}
 			_, hasE := g.reachE[n]
-			needE := contentArg != nil && (isContent(a.Type()) || isRef(a.Type()))
+			needE := contentIdx >= 0 && (isContent(a.Type()) || isRef(a.Type()))
 			if needE && !hasE {
 				r.Violation(rule, construct, site, fmt.Sprintf("this call uploads content to the wrapped store %q but argument %s does not derive from a buffer age.Encrypt wrote into", store, c11ParamName(c, i)))
 				continue
@@ -893,17 +886,62 @@ func c11RuleTaint(p *Program, r *Reporter, g *c11Flow) {
 			r.OKTable(rule, base+"#no-data-args", site, "the call hands the wrapped store only a context and function values")
 		}
 		// the name an upload is stored under is the hash of the uploaded buffer
-		if contentArg != nil {
+		if contentIdx >= 0 {
 			for i, a := range args {
 				if g.wrappedStore(g.node(a)) != "" || !isRef(a.Type()) {
 					continue
 				}
 				construct := base + "#" + c11ParamName(c, i) + "=hash(uploaded)"
-				ok, why := c11RefOfSameBuffer(a, contentArg)
+				ok, why := g.refOfSameBufferVia(where, actual[i], actual[contentIdx])
 				r.Check(ok, rule, construct, site,
 					"the ref is blob.RefFromBytes/RefFromString of bytes taken from the same buffer that is uploaded",
 					"the ref the ciphertext is stored under is not computed from the uploaded buffer ("+why+"): Fetch's digest check against that name would fail or a different blob would be overwritten")
 			}
+		}
+	}
+	for _, c := range g.extCalls {
+		args := c.Args()
+		store := ""
+		var storeArg ssa.Value
+		for _, a := range args {
+			if s := g.wrappedStore(g.node(a)); s != "" {
+				store, storeArg = s, a
+			}
+		}
+		if store == "" {
+			continue
+		}
+		// forwarding helper: the store is a parameter of a top-level package function with callers in the
+		// package => judge the arguments at each caller (bound 1), where store and buffers are not merged
+		fn := c.Fn
+		wi := g.paramIndexOfNode(fn, g.node(storeArg))
+		var callers []CallSite
+		if wi >= 0 && fn.Parent() == nil {
+			for _, f := range g.fns {
+				for _, cc := range CallsIn(f, false) {
+					if cc.Callee() == fn && len(cc.Args()) == len(fn.Params) {
+						callers = append(callers, cc)
+					}
+				}
+			}
+		}
+		if len(callers) == 0 {
+			checkSink(c, fn, store, "", args)
+			continue
+		}
+		for _, cc := range callers {
+			cstore := g.wrappedStore(g.node(cc.Args()[wi]))
+			if cstore == "" {
+				continue
+			}
+			actual := make([]ssa.Value, len(args))
+			for i, a := range args {
+				actual[i] = a
+				if pi := g.paramIndexOfNode(fn, g.node(a)); pi >= 0 {
+					actual[i] = cc.Args()[pi]
+				}
+			}
+			checkSink(c, cc.Fn, cstore, " via "+shortFn(fn), actual)
 		}
 	}
 	// W values must not leave through constructs that lose their identity
@@ -1028,6 +1066,48 @@ func c11RefOfSameBuffer(ref, content ssa.Value) (bool, string) {
 		return false, "no blob.RefFromBytes/RefFromString/RefFromHash in its derivation"
 	}
 	return false, "it hashes a different buffer"
+}
+
+// refOfSameBufferVia is c11RefOfSameBuffer, except that when both the ref and the
+// content are parameters of fn (a ref+bytes forwarding helper) the check is made
+// at every caller of fn in the package instead (bound 1).
+func (g *c11Flow) refOfSameBufferVia(fn *ssa.Function, ref, content ssa.Value) (bool, string) {
+	refPrm, isRefPrm := originValue(ref).(*ssa.Parameter)
+	var contentPrm *ssa.Parameter
+	for root := range c11BufferRoots(content) {
+		if prm, ok := root.(*ssa.Parameter); ok {
+			contentPrm = prm
+		}
+	}
+	if !isRefPrm || contentPrm == nil || fn.Parent() != nil {
+		return c11RefOfSameBuffer(ref, content)
+	}
+	ri, ci := -1, -1
+	for i, prm := range fn.Params {
+		if prm == refPrm {
+			ri = i
+		}
+		if prm == contentPrm {
+			ci = i
+		}
+	}
+	callers := 0
+	for _, f := range g.fns {
+		for _, c := range CallsIn(f, false) {
+			if c.Callee() != fn || ri < 0 || ci < 0 {
+				continue
+			}
+			callers++
+			args := c.Args()
+			if ok, why := c11RefOfSameBuffer(args[ri], args[ci]); !ok {
+				return false, "at the caller " + shortFn(f) + " of the forwarding helper: " + why
+			}
+		}
+	}
+	if callers == 0 {
+		return false, "ref and content are parameters of a helper that has no caller in the package"
+	}
+	return true, ""
 }
 
 // c11BufferRoots returns the buffer objects a reader/bytes value is a view of:
@@ -1532,32 +1612,56 @@ func c11RuleCompact(p *Program, r *Reporter, g *c11Flow) {
 			nRemove++
 			fk := FuncKey(fn)
 			site := p.Pos(rm.c.Pos())
-			var upload *c11Sink
+			// the upload: a content sink on the same store in this function, or a direct call of a
+			// package function that contains one (bound 1)
+			var upload *ssa.Call
 			for _, u := range g.sinksIn(fn, false) {
-				u := u
 				if u.store == rm.store && g.contentArg(u.c) != nil && u.c.Value() != nil {
 					if ok, _ := SuccessDominates(u.c.Value(), rm.c.Instr); ok {
-						upload = &u
+						upload = u.c.Value()
+					}
+				}
+			}
+			if upload == nil {
+				for _, c := range CallsIn(fn, false) {
+					h := c.Callee()
+					if h == nil || !g.inPkg[h] || h.Parent() != nil || c.Value() == nil {
+						continue
+					}
+					for _, u := range g.sinksIn(h, false) {
+						if strings.Contains("|"+u.store+"|", "|"+rm.store+"|") && g.contentArg(u.c) != nil {
+							if _, hasErr, _ := ErrValue(c.Value()); hasErr {
+								if ok, _ := SuccessDominates(c.Value(), rm.c.Instr); ok {
+									upload = c.Value()
+								}
+							}
+						}
 					}
 				}
 			}
 			if upload == nil {
 				r.Violation(rule, fk+"#"+rm.store+"."+removeName+"#after-upload", site,
-					"blobs are removed from the wrapped store "+rm.store+" without being dominated by the success edge of an upload to that store in the same function: if the packed meta blob was not stored, the only copies of these rows are deleted and the plaintext->ciphertext mapping is lost")
+					"blobs are removed from the wrapped store "+rm.store+" without being dominated by the success edge of an upload to that store (in the same function or a helper it calls): if the packed meta blob was not stored, the only copies of these rows are deleted and the plaintext->ciphertext mapping is lost")
 				continue
 			}
-			r.OK(rule, fk+"#"+rm.store+"."+removeName+"#after-upload", site, "dominated by the success edge of "+c11CalleeName(upload.c)+" to the same store")
+			upCS := CallSite{fn, upload}
+			r.OK(rule, fk+"#"+rm.store+"."+removeName+"#after-upload", site, "dominated by the success edge of "+c11CalleeName(upCS)+" to the same store")
 			// the upload is of successfully encrypted content
 			var enc *ssa.Call
 			for _, c := range CallsIn(fn, false) {
-				if c.Callee() == encFn && c.Value() != nil && encCipherIdx >= 0 && g.flows(c.Value().Call.Args[encCipherIdx], g.contentArg(upload.c), c11FwdKinds) {
-					enc = c.Value()
+				if c.Callee() != encFn || c.Value() == nil || encCipherIdx < 0 {
+					continue
+				}
+				for _, a := range upCS.Args() {
+					if g.wrappedStore(g.node(a)) == "" && g.flows(c.Value().Call.Args[encCipherIdx], a, c11FwdKinds) {
+						enc = c.Value()
+					}
 				}
 			}
 			if enc == nil {
 				r.Undecided(rule, fk+"#"+rm.store+"."+removeName+"#upload-encrypted-ok", site, "the uploaded replacement is not encrypted by a direct call of the encrypt helper in this function")
 			} else {
-				ok, why := SuccessDominates(enc, upload.c.Instr)
+				ok, why := SuccessDominates(enc, upload)
 				r.Check(ok, rule, fk+"#"+rm.store+"."+removeName+"#upload-encrypted-ok", site,
 					"the upload is dominated by the success edge of the encrypt helper for the uploaded buffer",
 					"the replacement blob is uploaded although the encrypt helper may have failed ("+why+"): a truncated packed meta blob replaces the small ones")
@@ -1832,6 +1936,52 @@ func c11RuleCompact(p *Program, r *Reporter, g *c11Flow) {
 	r.Floor(rule, 12)
 }
 
+// uploadsTo lists the content values uploaded to the named wrapped store: the
+// content argument of every sink on exactly that store, and, for a sink inside a
+// forwarding helper whose store parameter may be several stores, the content
+// argument at each caller that passes exactly that store (bound 1).
+func (g *c11Flow) uploadsTo(store string) []ssa.Value {
+	var out []ssa.Value
+	for _, fn := range g.fns {
+		for _, sk := range g.sinksIn(fn, false) {
+			ca := g.contentArg(sk.c)
+			if ca == nil {
+				continue
+			}
+			if sk.store == store {
+				out = append(out, ca)
+				continue
+			}
+			if !strings.Contains("|"+sk.store+"|", "|"+store+"|") || fn.Parent() != nil {
+				continue
+			}
+			wi, ci := -1, -1
+			for _, a := range sk.c.Args() {
+				if g.wrappedStore(g.node(a)) != "" {
+					wi = g.paramIndexOfNode(fn, g.node(a))
+				}
+			}
+			for root := range c11BufferRoots(ca) {
+				if prm, ok := root.(*ssa.Parameter); ok {
+					ci = g.paramIndexOfNode(fn, g.node(prm))
+				}
+			}
+			if wi < 0 || ci < 0 {
+				out = append(out, ca) // cannot separate: treat as an upload to this store
+				continue
+			}
+			for _, f := range g.fns {
+				for _, c := range CallsIn(f, false) {
+					if c.Callee() == fn && g.wrappedStore(g.node(c.Args()[wi])) == store {
+						out = append(out, c.Args()[ci])
+					}
+				}
+			}
+		}
+	}
+	return out
+}
+
 // c11HeaderFact finds, among the facts at block b, a comparison of a string
 // flowing from the decrypted buffer with a constant that is known equal.
 func c11HeaderFact(g *c11Flow, b *ssa.BasicBlock, plainBuf ssa.Value) (string, bool) {
@@ -1856,16 +2006,7 @@ func c11HeaderFact(g *c11Flow, b *ssa.BasicBlock, plainBuf ssa.Value) (string, b
 // meta store writes a constant starting with the header the parser accepts.
 func c11CheckWriters(p *Program, r *Reporter, g *c11Flow, rule, pk, hdr string, encFn *ssa.Function, encCipherIdx int, metaStore string) {
 	// content arguments of uploads to the meta store
-	var metaContents []ssa.Value
-	for _, fn := range g.fns {
-		for _, s := range g.sinksIn(fn, false) {
-			if s.store == metaStore {
-				if ca := g.contentArg(s.c); ca != nil {
-					metaContents = append(metaContents, ca)
-				}
-			}
-		}
-	}
+	metaContents := g.uploadsTo(metaStore)
 	n := 0
 	for _, fn := range g.fns {
 		for _, c := range CallsIn(fn, false) {
